@@ -6,6 +6,26 @@ ROOT = os.path.dirname(os.path.dirname(os.path.abspath(__file__)))
 
 # id -> (engine, level, technique, level text, level note, design_ref)
 CHECKS = {
+ "C02": ("codec", "exploration",
+   "runtime monitor: differential oracle (reference encoder) + decode/re-encode byte equality + consumption accounting",
+   "Runs value.NewValue / Value.Write on PRNG-generated dynamic values (every constructor, nested lists, opaque values of random composite signatures with nested m and o, size-cap cases): the written bytes must equal the reference encoding, decoding must consume exactly those bytes, keep the signature and re-encode identically. Held on the executions observed.",
+   "Trusts harness/refcodec; top-level opaque values of signature m / v / X are outside the domain (no constructor, no well-formed data).", "DESIGN.md section 3 C02"),
+ "C03": ("codec", "exploration",
+   "runtime monitor: three-way differential oracle (reflection encoder vs reference codec vs signature reader vs reflection decoder)",
+   "For PRNG-generated (signature, Go type, value) triples the reflection encoder's bytes are decoded by the reference decoder and compared with the reference bytes, fed to the signature-driven reader (must return exactly those bytes) and to the reflection decoder (must recover the value). Held on the executions observed.",
+   "Trusts harness/refcodec; signalling-NaN payloads are not demanded (hardware quiets them in float32<->float64 conversion); containers above the decoder's 4096 cap are outside the domain.", "DESIGN.md section 3 C03"),
+ "C08": ("codec", "exploration",
+   "runtime monitor: every strict prefix of valid encodings fed to the real decoders, nil error is the violation",
+   "Valid encodings of messages, dynamic values, typed data of random signatures (signature reader and reflection decoder), MetaObject, ObjectReference, ServiceInfo and CapabilityMap are cut at every position (len<=512) or at every length-field boundary +-1 plus random positions; each prefix must be refused. Held on the prefixes observed.",
+   "Trusts harness/refcodec to produce valid encodings (cases whose full encoding the decoder rejects are counted, not judged).", "DESIGN.md section 3 C08"),
+ "C09": ("codec", "exploration",
+   "runtime monitor: round-trip and fixed-point oracles over generated grammar strings, mutants and random strings",
+   "Every generated grammar signature must parse, print identically, have the reference IDL name and a structurally consistent Go type; every mutant / random string is either refused or is a print fixed point; panics are violations (recovered in-process, stack overflow caught as a child crash). Held on the strings observed.",
+   "Trusts the reference printer and IDL naming in harness/refcodec; Go Type() is not compared for maps whose key Go cannot represent.", "DESIGN.md section 3 C09"),
+ "C20": ("codec", "exploration",
+   "runtime monitor: reference-conversion oracle over generated compatible type pairs, refusal oracle over incompatible pairs",
+   "Generates structurally compatible (S,T) Go type pairs and values, runs ConvertFrom both ways and DecodeFrom, compares with a reference conversion written in the harness; incompatible pairs (bare and nested) must be refused. Held on the pairs observed.",
+   "No verdict is asked for narrowing or cross-signedness integer conversions (the statement promises neither).", "DESIGN.md section 3 C20"),
  "C01": ("codec", "exploration",
    "runtime monitor: reference-layout oracle + exact consumption accounting over fragmenting readers",
    "Runs the real Message.Write/Message.Read on PRNG-generated headers, payloads, fragmentations and message sequences; every written frame is compared byte for byte with an independent model of the documented layout and every read is checked for equality and exact consumption; invalid headers must be refused before any payload byte is requested. Held-on-observed-executions, not a proof.",
